@@ -35,6 +35,10 @@ def events(rich=False):
         ev.append(("move", o, "up"))
         ev.append(("move", o, "down"))
     ev.append(("replace", "a", ("parsed", "p2"), None, None))
+    # definitions whose only test is a constant (`false` is also what the disabled wrapper tests)
+    ev.append(("add", "a", "d10"))
+    ev.append(("update", "b", "b", "d10"))
+    ev.append(("add", "c", "d11"))
     # names that are canonically equivalent but different strings (NFC / NFD, OHM SIGN / OMEGA): distinct filters
     for n in TWINS:
         ev.append(("add", n, "d1"))
@@ -315,7 +319,7 @@ def task(t):
     # would multiply the reachable states without adding a new kind of transition)
     seen = set()
     first_ev = evs[first]
-    evs = [e for e in evs if not any(x in TWINS for x in e if isinstance(x, str))]
+    evs = [e for e in evs if not any(x in TWINS or x in ("d10", "d11") for x in e if isinstance(x, str))]
     frontier = [[first_ev]]
     bad, fs, model, i = replay_history(frontier[0], ns)
     n += 1
